@@ -302,6 +302,49 @@ func genMempoolAdd(repo string) (string, error) {
 		}
 	}
 	fmt.Fprintf(&b, "def errOrder : List String := [%s]\n", strings.Join(errs, ", "))
+	// the ConflictsT case of Blockchain.verifyTxAttributes (pkg/core/blockchain.go): the check in front of Pool.Add
+	// that rejects a repeated Conflicts hash (model: Proofs/MempoolAdmit.lean dupScan / conflictsAttrsOk)
+	bpath := filepath.Join(repo, "pkg/core/blockchain.go")
+	var bcontent any
+	if c, ok := overlayFromEnv()[bpath]; ok {
+		bcontent = c
+	}
+	bf, err := parser.ParseFile(fset, bpath, bcontent, 0)
+	if err != nil {
+		return "", err
+	}
+	var clause *ast.CaseClause
+	for _, d := range bf.Decls {
+		fd, ok := d.(*ast.FuncDecl)
+		if !ok || fd.Name.Name != "verifyTxAttributes" || fd.Body == nil {
+			continue
+		}
+		ast.Inspect(fd.Body, func(n ast.Node) bool {
+			if cc, ok := n.(*ast.CaseClause); ok && clause == nil {
+				for _, e := range cc.List {
+					if w.src(e) == "transaction.ConflictsT" {
+						clause = cc
+					}
+				}
+			}
+			return true
+		})
+	}
+	if clause == nil {
+		return "", fmt.Errorf("blockchain.go: case transaction.ConflictsT of verifyTxAttributes not found")
+	}
+	w.steps = nil
+	w.block(clause.Body, nil)
+	b.WriteString("/-- verifyTxAttributes of pkg/core/blockchain.go, case transaction.ConflictsT: (kind, detail) in source order -/\n")
+	b.WriteString("def conflictsAttrSteps : List (String × String) := [\n")
+	for i, s := range w.steps {
+		sep := ","
+		if i == len(w.steps)-1 {
+			sep = ""
+		}
+		fmt.Fprintf(&b, "  (%s, %s)%s\n", mpaLeanStr(s.kind), mpaLeanStr(s.detail), sep)
+	}
+	b.WriteString("]\n")
 	b.WriteString("end NeoModel.Generated.MempoolAdd\n")
 	return b.String(), nil
 }
